@@ -19,7 +19,7 @@ def check(ctx, rep):
     # "the sink keeps accepting metrics": whether emit accepts depends on the queue alone - every emit attempts the enqueue
     # and maps its outcome; no worker-health flag, slot counter or cached thread handle can refuse it after a panic
     from .common import KeepOnly
-    A.rule_emit(m, KeepOnly(rep, ('emit/enqueues-exactly-once', 'emit/result-depends-on-enqueue', 'emit/accepted-means-ok-len'), 'R5'), 'R5')
+    A.rule_emit(m, KeepOnly(rep, ('emit/enqueues-exactly-once', 'emit/result-depends-on-enqueue', 'emit/accepted-means-ok-len'), 'R5'), 'R5', early_pure=True)
     A.rule_loop(m, rep, 'R3')
     A.rule_task_closure(m, rep, 'R3', parts=('once',))
     B.rule_task_own_panics(m, rep, 'R3')
